@@ -27,9 +27,13 @@ func TestVerifC14Enum(t *testing.T) {
 			{K: "advance", DtMs: 11000}, // past the session timeout
 		},
 		Names: []string{"J0", "J1", "J2", "J0new", "S0", "S1", "S2", "L0", "L1", "+4s", "+11s"},
-		Depth: r.N(4, 5),
+		Depth: r.N(3, 5),
+		Preambles: map[string][]gOp{
+			"empty": nil,
+			"stable3": {{K: "join", Slot: 0, Sub: sub}, {K: "join", Slot: 1, Sub: sub}, {K: "join", Slot: 2, Sub: sub}, {K: "settle"}},
+		},
 	}
-	defer r.Finish(fmt.Sprintf("bounded-exhaustive: ALL %d sequences of length %d (hence every shorter one as a prefix) over the alphabet %v for 3 members (session 10 s, rebalance timeout 3 s, cleanup 1 s) are run on the real coordinator on virtual time and judged after every step by the C14 observer of leg 'group' (leader in every join reply is a stored member; member list only and always in the leader's code-0 reply and equal to the stored membership; code 0 => every stored member's latest join reply carries the stored generation; after completion + leader sync every stored member's sync succeeds). non-trivial = sequence in which a >=2-member generation completed after somebody had been answered REBALANCE_IN_PROGRESS", spec.total(), spec.Depth, spec.Names))
+	defer r.Finish(fmt.Sprintf("bounded-exhaustive: ALL %d sequences of length %d (hence every shorter one as a prefix) over the alphabet %v, started from the empty group and from a settled Stable group of 3 members, for 3 members (session 10 s, rebalance timeout 3 s, cleanup 1 s) are run on the real coordinator on virtual time and judged after every step by the C14 observer of leg 'group' (leader in every join reply is a stored member; member list only and always in the leader's code-0 reply and equal to the stored membership; code 0 => every stored member's latest join reply carries the stored generation; after completion + leader sync every stored member's sync succeeds). non-trivial = sequence in which a >=2-member generation completed after somebody had been answered REBALANCE_IN_PROGRESS", spec.total(), spec.Depth, spec.Names))
 	var cur *c14Obs
 	gEnumerate(t, spec, func(seq string) []gObserver {
 		cur = &c14Obs{r: r, completed: map[string]bool{}, leaderOf: map[string]string{}, leaderSynced: map[string]bool{}, sawWait: map[string]bool{}}
@@ -48,5 +52,5 @@ func TestVerifC14Enum(t *testing.T) {
 	r.Exhaustive(true)
 	r.Note("sequences", spec.total())
 	r.Floor("join_replies", 1000)
-	r.Floor("generations_completed_after_somebody_waited", 20)
+	r.Floor("generations_completed_after_somebody_waited", int64(r.N(3, 500)))
 }
